@@ -13,9 +13,9 @@ use std::collections::{BTreeSet, HashSet, VecDeque};
 pub const DEF: PropDef = PropDef {
     id: "C03",
     level: "model_checking",
-    rule: "states = abstract datasets (quads up to blank-node renaming + graph catalog) reached from 3 initial datasets by sequences of requests from a 34-request alphabet (the six update forms over default and named graphs, self-referential and swapping templates, graph-variable templates, WHERE with FILTER/UNION/VALUES, blank-node templates, unbound and literal-subject template variables, and 11 malformed/rejected requests) executed through SparqlDatabase::execute_update; every transition replays the op prefix on a fresh database and compares, after the last step, all quads of all graphs (up to blank-node renaming), the catalog bounds, the UpdateSummary counts and acceptance/rejection with the R-update reference; a rejected request must leave quads and catalog untouched. BFS per (initial dataset, first op) subtree with de-duplication on the abstract state; distinct non-trivial = distinct reached states holding >=2 quads.",
+    rule: "states = abstract datasets (quads up to blank-node renaming + graph catalog) reached from 3 initial datasets by sequences of requests from a 36-request alphabet (the six update forms over default and named graphs, self-referential and swapping templates, graph-variable templates, WHERE with FILTER/UNION/VALUES, blank-node templates (also over WHERE multisets with identical solutions), unbound and literal-subject template variables, and 11 malformed/rejected requests) executed through SparqlDatabase::execute_update; every transition replays the op prefix on a fresh database and compares, after the last step, all quads of all graphs (up to blank-node renaming), the catalog bounds, the UpdateSummary counts and acceptance/rejection with the R-update reference; a rejected request must leave quads and catalog untouched. BFS per (initial dataset, first op) subtree with de-duplication on the abstract state; distinct non-trivial = distinct reached states holding >=2 quads.",
     assumptions: &[
-        "alphabet of 34 requests over U (harness/src/props/ugen.rs); depth 4 quick, 6 thorough",
+        "alphabet of 36 requests over U (harness/src/props/ugen.rs); depth 4 quick, 6 thorough",
         "de-duplication on the abstract dataset (quads + catalog): sound for this check because it compares the complete physical content through all_quads after every step; index-level divergence is C04's subject",
         "catalog: SPARQL Update leaves the fate of emptied graphs open, so Kolibrie's catalog is only required to contain every graph holding a quad and nothing never named",
         "reference R-update (harness/src/reference/update.rs), self-tested",
